@@ -489,6 +489,15 @@ def prior_expand(S, kind):
         pr = P.HalfNormalPrior(S.rand(2, lo=0.5, hi=2.0), transform=tf); ps = (S.sym_tensor(pr.scale, "scale", positive=True),)
     elif kind == "halfcauchy":
         pr = P.HalfCauchyPrior(S.rand(2, lo=0.5, hi=2.0), transform=tf); ps = (S.sym_tensor(pr.scale, "scale", positive=True),)
+    elif kind == "horseshoe":
+        pr = P.HorseshoePrior(S.rand(2, lo=0.5, hi=2.0), transform=tf); ps = (S.sym_tensor(pr.scale, "scale", positive=True),)
+    elif kind == "lognormal":
+        pr = P.LogNormalPrior(S.randn(2), S.rand(2, lo=0.5, hi=2.0), transform=tf); ps = (S.sym_tensor(pr.loc, "loc"), S.sym_tensor(pr.scale, "scale", positive=True))
+    elif kind == "uniform":
+        lo_ = S.rand(2, lo=0.0, hi=0.3)
+        pr = P.UniformPrior(lo_, lo_ + 9.0, validate_args=False, transform=tf); ps = (S.sym_tensor(pr.low, "low"), S.sym_tensor(pr.high, "high"))
+        for i in range(2):
+            CTX.assume(gt_formula(ps[1][i], ps[0][i]))
     elif kind in ("mvn", "mvn_cov"):
         A = torch.tensor([[1.1, 0.0], [0.4, 0.8]])
         pr = P.MultivariateNormalPrior(torch.tensor([0.1, -0.2]), scale_tril=A) if kind == "mvn" else P.MultivariateNormalPrior(torch.tensor([0.1, -0.2]), covariance_matrix=A @ A.T)
@@ -612,7 +621,7 @@ def scenarios(tier, seed):
         add("prior_reassign", kind=kind)
     for kind in ("interval", "greater", "less"):
         add("intersect", kind=kind)
-    for kind in ("normal", "gamma", "halfnormal", "halfcauchy", "mvn", "mvn_cov"):
+    for kind in ("normal", "gamma", "halfnormal", "halfcauchy", "horseshoe", "lognormal", "mvn", "mvn_cov"):
         add("prior_expand", kind=kind)
     add("registered_prior")
     for prm in lkj_ + ([dict(n=3, eta=2.0, cov=True)] if True else []):
